@@ -28,8 +28,13 @@ import (
 	"github.com/istio-ecosystem/authservice/internal/server"
 )
 
-func c18Loader(r *Run) {
-	for _, order := range [][]string{{"a", "b"}, {"b", "a"}} {
+func c18Loader(r *Run) { c18LoaderTag(r, "[C18]") }
+
+// also part of C02: an ID token is validated under the key set of the filter's OWN (discovered) provider and redeemed
+// at its own token endpoint
+func c18LoaderTag(r *Run, tag string) {
+	for oi, order := range [][]string{{"a", "b"}, {"b", "a"}, {"a", "b"}, {"b", "a"}} {
+		byQuery := oi >= 2 // the two discovery URLs differ only in their query string
 		ctx, cancel := context.WithCancel(context.Background())
 		// both providers publish their documents on ONE host, under URLs that differ only after /.well-known/ (a policy or
 		// realm selector): whatever is remembered about discovery must be remembered per configuration URI
@@ -43,6 +48,9 @@ func c18Loader(r *Run) {
 			must(err)
 			mrs[n] = mr
 			paths[n] = "/.well-known/openid-configuration/realms/" + n + fmt.Sprintf("-%d", time.Now().UnixNano())
+			if byQuery {
+				paths[n] = fmt.Sprintf("/.well-known/openid-configuration/v%d?p=B2C_1_%s", time.Now().UnixNano()/1000000, n)
+			}
 			shared.setDiscovery(paths[n], discAnswer{Kind: "doc", Doc: discDoc{Auth: "https://idp-" + n + ".example.com/authorize", Token: shared.srv.URL + "/token-" + n,
 				Jwks: shared.srv.URL + "/jwks", EndSession: "https://idp-" + n + ".example.com/end-session"}})
 		}
@@ -123,7 +131,7 @@ func c18Loader(r *Run) {
 		for rep := 0; rep < 2; rep++ {
 			for _, n := range order {
 				if loc := ask(n, "/"+n+"/page", ""); !strings.HasPrefix(loc, "https://idp-"+n+".example.com/authorize?") {
-					r.Violate("[C18] a filter's login redirect does not go to the authorization endpoint of its own (discovered) provider",
+					r.Violate(tag+" a filter's login redirect does not go to the authorization endpoint of its own (discovered) provider",
 						map[string]any{"document": string(b), "filter": n, "served_order": order, "location": loc})
 				}
 			}
